@@ -20,12 +20,25 @@ StepOK(e, idx) ==
     [] e.ev = "RectClip" -> RectClipOK(e, idx)
     [] e.ev = "RectClipLines" -> RectClipLinesOK(e, idx)
     [] e.ev = "Measure" -> MeasureOK(e, idx)
+    [] e.ev = "EngExec" -> EngExecOK(e, idx)
+    [] e.ev = "OffExec" -> OffExecOK(e, idx)
+    [] e.ev \in {"EngNew", "EngAdd", "OffNew", "OffAdd", "Reset"} -> TRUE
+    [] e.ev = "BoolGroup" -> BoolGroupOK(e, idx)
+    [] e.ev = "BoolVariants" -> BoolVariantsOK(e, idx)
     [] e.ev = "Trim" -> TrimOK(e, idx)
     [] e.ev = "Simplify" -> SimplifyOK(e, idx)
     [] OTHER -> Chk("UNKNOWN-EVENT", idx, FALSE)
 
 \* ... and its effect on the system state
-StepEffect(e) == UNCHANGED sysvars
+StepEffect(e) ==
+  CASE e.ev = "EngNew"  -> EngNew(e.id, e.kind, e.prec)
+    [] e.ev = "EngAdd"  -> EngAdd(e.id, e.paths, e.ptype, e.open)
+    [] e.ev = "EngExec" -> EngExecEffect(e.id, e.form)
+    [] e.ev = "OffNew"  -> OffNew(e.id, e.miter4, e.arc4, e.pc, e.rev)
+    [] e.ev = "OffAdd"  -> OffAdd(e.id, e.paths, e.jt, e.et)
+    [] e.ev = "OffExec" -> OffExecEffect(e.id)
+    [] e.ev = "Reset"   -> engines' = <<>> /\ offsets' = <<>> /\ UNCHANGED pkg     \* start of the next recorded history
+    [] OTHER -> UNCHANGED sysvars
 
 TInit == l = 1 /\ rej = <<>> /\ SysInit
 
